@@ -217,6 +217,7 @@ class Interp:
         self.summaries = {}        # qualname -> python callable(interp, args, kwargs) used instead of the body (callee contract)
         self.loop_specs = {}       # (qualname, ordinal) -> LoopSpec
         self.trace = []            # effect trace (file writes, callbacks ...)
+        self.watches = {}          # qualname -> {local name: [values assigned, in order]}
         self.install_default_summaries()
         self.steps = 0
         self.max_steps = int(os.environ.get('PVC_MAX_STEPS', '4000000'))
@@ -649,6 +650,10 @@ class Interp:
     def assign(self, t, v, env):
         if isinstance(t, ast.Name):
             env.vars[t.id] = v
+            if self.watches and env.has('__qualname__'):
+                w = self.watches.get(env.lookup('__qualname__'))
+                if w is not None and t.id in w:
+                    w[t.id].append(v)       # ghost access to a local of a function under contract (for lemma cuts; never changes execution)
         elif isinstance(t, (ast.Tuple, ast.List)):
             vals = self.iterate(v)
             if any(isinstance(e, ast.Starred) for e in t.elts):
@@ -701,7 +706,10 @@ class Interp:
                     return False
             elif isinstance(s, ast.Expr):
                 v = s.value
-                if not (isinstance(v, ast.Call) and isinstance(v.func, ast.Name) and v.func.id == 'print'):
+                if not (isinstance(v, ast.Call) and ((isinstance(v.func, ast.Name) and v.func.id == 'print') or
+                                                     (getattr(self.ctx, 'warnings_unobserved', False) and      # opt-in: the harness does not look at warnings
+                                                      isinstance(v.func, ast.Attribute) and isinstance(v.func.value, ast.Name) and
+                                                      v.func.value.id == 'warnings' and v.func.attr == 'warn'))):
                     return False
             elif isinstance(s, ast.If):
                 if not (self.pure_expr(s.test) and self.mergeable_if(s)):
@@ -720,6 +728,13 @@ class Interp:
         for nm in ('abs', 'max', 'min', 'print'):
             if env.has(nm):
                 return False                     # shadowed builtin
+        if any(isinstance(x, ast.Attribute) for x in ast.walk(st) if x is not st.test and not any(x is y for y in ast.walk(st.test))):
+            # warnings.warn(...) inside the branches: only when `warnings` is the library module (modelled as effect-free, DESIGN 2.1)
+            try:
+                if not (isinstance(self.lookup('warnings', env), Namespace) and self.lookup('warnings', env).name == 'warnings'):
+                    return False
+            except Unsupported:
+                return False
         UNSET = object()
         base = {n: (env.lookup(n) if env.has(n) else UNSET) for n in names}
         local = {n: env.vars.get(n, UNSET) for n in names}
